@@ -7,7 +7,7 @@
 From Coq Require Import List NArith Bool.
 From RPFT Require Import Base.Sexp Base.SexpEq Base.Result Gen.Tables Flow.Lts Flow.Flow Flow.FlowFacts Flow.RowSem
      Comp.Compile Comp.CompileExamples Comp.CompileExampleFacts Comp.Refine Comp.RefineStep Comp.RefineFinal Comp.RefineFrag Comp.RefineExamples
-     Comp.RefineRefuted.
+     Comp.RefineRefuted Comp.RefineSheet.
 Import ListNotations.
 
 (* the checker is sound for any label-matching relation (used with wildcard matching on
@@ -106,6 +106,44 @@ Theorem C02_reading_agrees_decided :
       else forall c, has_group_typed c = false -> row_args c = ref_args c /\ noop_args c = ref_args c).
 Proof. exact reading_agrees_decided. Qed.
 Print Assumptions C02_reading_agrees_decided.
+
+(* the same over SHEET ROWS (Comp/RefineSheet.v): a sheet row is one value - type with node kind and action payload, row
+   id, node name, `_nodeId`, edges - and what the reference reads (row_of) and what the compiler reads (crow_of) are
+   functions of it, as harness/rowref.py and comp_corr.py compute them: premise (1), the input encoding, is a definition.
+   Left: edge_ok of every edge and `_nodeId` <> the hard-exit marker (srow_ok), reads_same. *)
+Theorem C02_compile_refines_rowsem_sheet_partial : forall (G : GenNames) fresh validate name (rows : list srow) f ref,
+  (forall a b : nat, fresh a = fresh b -> a = b) -> (forall k, fresh k <> hard_exit_sentinel) ->
+  (forall us, validate us = None -> NoDup us) ->
+  Forall (@srow_ok G) rows -> Forall reads_same (map crow_of rows) ->
+  compile_with fresh validate name (map crow_of rows) = Ok f -> rowsem nab (map row_of rows) = Some ref ->
+  (forall t, traces ref t -> exists t', traces f t' /\ Forall2 (ematch sexp smatch) t t')
+  /\ (forall t, traces f t -> exists t', traces ref t' /\ Forall2 (ematch sexp (fun a b => smatch b a)) t t').
+Proof. exact @compile_refines_rowsem_sheet. Qed.
+Print Assumptions C02_compile_refines_rowsem_sheet_partial.
+
+(* ON A TREE WITH THE FOUR REPAIRS (tree_repaired: the four probed constants true - a05766f, f02a865, 7eafa08 and the
+   repair of category-name-clash) premises (2) and (3) are theorems: FOR EVERY SHEET of the core vocabulary, compile = Ok f
+   and rowsem = Some ref imply trace equivalence - provided only that no `_nodeId` is the hard-exit marker and no bucket of
+   a split_random is explicitly called "Bucket <n>" (sheet_ok: RandomRouter.add_choice invents such names and looks a name
+   up among all buckets; the same quirk as category-name-clash, not repaired).  Those two provisos are why the name still
+   ends in _partial. *)
+Theorem C02_compile_refines_rowsem_repaired_partial : forall fresh validate name (rows : list srow) f ref,
+  tree_repaired = true ->
+  (forall a b : nat, fresh a = fresh b -> a = b) -> (forall k, fresh k <> hard_exit_sentinel) ->
+  (forall us, validate us = None -> NoDup us) ->
+  sheet_ok rows ->
+  compile_with fresh validate name (map crow_of rows) = Ok f -> rowsem nab (map row_of rows) = Some ref ->
+  (forall t, traces ref t -> exists t', traces f t' /\ Forall2 (ematch sexp smatch) t t')
+  /\ (forall t, traces f t -> exists t', traces ref t' /\ Forall2 (ematch sexp (fun a b => smatch b a)) t t').
+Proof. exact compile_refines_rowsem_repaired. Qed.
+Print Assumptions C02_compile_refines_rowsem_repaired_partial.
+
+Example C02_sheet_rows_nonvacuous :
+  sheet_ok ex_srows
+  /\ exists f ref, compile std_fresh [102%N] (map crow_of ex_srows) = Ok f /\ rowsem nab (map row_of ex_srows) = Some ref
+                   /\ length (f_nodes f) = 4 /\ length (f_nodes ref) = 4.
+Proof. exact sheet_rows_nonvacuous. Qed.
+Print Assumptions C02_sheet_rows_nonvacuous.
 
 (* the boolean test the harness evaluates on every generated sheet is sound for the hypotheses above *)
 Theorem C02_fragb_sound : forall rows,
